@@ -346,6 +346,17 @@ def run(ctx: Ctx):
     ctx.check(jsol is not None, "JOIN-1", nsd, nsd.node, "independent move tables are combined by the factor product; interactions enter as logits", "", "joint construction changed")
     ctx.check(nloop is not None, "JOIN-1", nsd, nsd.node,
               "one interaction logit per joint successor", "", "interaction rows are not aligned with the joint successors")
-    for rr, k in (("ALG-5", 10), ("TERM-1", 3), ("CLAMP-1", 2), ("ACT-1", 1), ("MOVE-1", 4), ("PAIR-1", 2), ("SWAP-1", 2), ("JOIN-1", 3)):
+    # MERGE-1 (written after seeds C18-c / C18-d): the row merge used by the factor product builds its result on a DEEP copy of the left row;
+    # the recursion writes into nested dictionaries of the result, so a shallow copy (or the row itself) lets it write into the operand's own rows
+    dm = ctx.P.fn("dictutils.dict_merge")
+    left_p, res_p = dm.positional_params[0], (dm.positional_params[2] if len(dm.positional_params) > 2 else "res")
+    SM = Snips(dm)
+    inits = [n for n in ast.walk(dm.node) if isinstance(n, ast.Assign) and len(n.targets) == 1 and isinstance(n.targets[0], ast.Name) and n.targets[0].id == res_p]
+    deep = [n for n in inits if SM.m(f"{res_p} = deepcopy({left_p})", n) is not None or SM.m(f"{res_p} = copy.deepcopy({left_p})", n) is not None]
+    ctx.check(bool(inits) and len(deep) == len(inits), "MERGE-1", dm, inits[0] if inits else dm.node, "merged row starts as a deep copy of the left row", "",
+              f"the result of dict_merge starts as `{norm(inits[0].value, 50) if inits else '?'}`: nested dictionaries are shared with the left operand and are overwritten by the recursive merge")
+    writes_nested = SM.has(f"dict_merge(ANY, ANY, {res_p}[k])") or SM.has(f"dict_merge(ANY, ANY, res={res_p}[k])")
+    ctx.check(writes_nested if writes_nested else None, "MERGE-1", dm, dm.node, "the recursion merges into the nested dictionary of the result", "", "idiom not recognised")
+    for rr, k in (("ALG-5", 10), ("TERM-1", 3), ("CLAMP-1", 2), ("ACT-1", 1), ("MOVE-1", 4), ("PAIR-1", 2), ("SWAP-1", 2), ("JOIN-1", 3), ("MERGE-1", 2)):
         ctx.require(rr, k)
     ctx.assume("dict_match / dict_merge implement the natural join of nested assignments (msdm.core.utils.dictutils)")
